@@ -54,6 +54,7 @@ type ordCtx struct {
 	problems  []string
 	sawEffect bool
 	loggerOK  int
+	inCallee  int // >0 while the body of a called helper is classified (callLogsOnly)
 }
 
 func (c *ordCtx) problem(n ast.Node, format string, a ...interface{}) {
@@ -169,6 +170,64 @@ func (c *ordCtx) callPure(call *ast.CallExpr) bool {
 		return c.pur.isPure(sf)
 	}
 	return false
+}
+
+// callLogsOnly: the statement calls a function of the module, with pure arguments, whose body — classified
+// by the same discipline as a loop body, its parameters and locals being per-call values — has no
+// order-relevant effect other than adding messages to the logger (which orders them, C08/R6). This
+// is the loop body's own `log.AddError(…)` moved into a helper.
+func (c *ordCtx) callLogsOnly(call *ast.CallExpr) bool {
+	if c.inCallee >= 2 {
+		return false
+	}
+	sf := c.prog.ssaFuncOfCall(c.pkg, call)
+	if sf == nil {
+		return false
+	}
+	decl, ok := sf.Syntax().(*ast.FuncDecl)
+	if !ok || decl.Body == nil {
+		return false
+	}
+	pkg := c.prog.ByPath[pkgPathOf(sf)]
+	if pkg == nil {
+		return false
+	}
+	for _, a := range call.Args {
+		if !c.exprPure(a) {
+			return false
+		}
+	}
+	if sel, ok := call.Fun.(*ast.SelectorExpr); ok {
+		if _, isMethod := c.pkg.TypesInfo.Selections[sel]; isMethod && !c.exprPure(sel.X) {
+			return false
+		}
+	}
+	sub := &ordCtx{keyObjs: map[types.Object]bool{}, prog: c.prog, pur: c.pur, pkg: pkg, loop: c.loop, localObjs: map[types.Object]bool{}, appended: map[types.Object]token.Pos{}, inCallee: c.inCallee + 1}
+	declare := func(fl *ast.FieldList) {
+		if fl == nil {
+			return
+		}
+		for _, f := range fl.List {
+			// only value parameters are per-call; a pointer, map or slice parameter aliases the caller's state
+			for _, n := range f.Names {
+				if o := pkg.TypesInfo.Defs[n]; o != nil {
+					switch o.Type().Underlying().(type) {
+					case *types.Pointer, *types.Map, *types.Slice, *types.Chan:
+					default:
+						sub.localObjs[o] = true
+					}
+				}
+			}
+		}
+	}
+	declare(decl.Type.Params)
+	declare(decl.Type.Results)
+	sub.stmt(decl.Body)
+	if len(sub.problems) > 0 || len(sub.appended) > 0 || sub.sawEffect {
+		return false
+	}
+	c.loggerOK += sub.loggerOK
+	return sub.loggerOK > 0
 }
 
 // functions with a benign, idempotent side effect (lazy caches): calling them in any order leaves the same state
@@ -507,6 +566,9 @@ func (c *ordCtx) stmt(s ast.Stmt) {
 				return // sorting a per-iteration value in place
 			}
 		}
+		if c.callLogsOnly(call) {
+			return
+		}
 		c.problem(s, "call with unknown effects: %s", types.ExprString(call.Fun))
 	case *ast.IfStmt:
 		c.stmt(x.Init)
@@ -600,6 +662,15 @@ func (c *ordCtx) stmt(s ast.Stmt) {
 			c.problem(s, "goto/fallthrough in map iteration")
 		}
 	case *ast.ReturnStmt:
+		if c.inCallee > 0 {
+			// the helper's result is discarded at the call statement; leaving it early reorders nothing
+			for _, r := range x.Results {
+				if !c.exprPure(r) {
+					c.problem(s, "impure result expression %s", types.ExprString(r))
+				}
+			}
+			return
+		}
 		for _, r := range x.Results {
 			if !isConstExpr(c.pkg, r) {
 				c.problem(s, "return of a loop-dependent value %s (first match depends on order)", types.ExprString(r))
